@@ -37,7 +37,7 @@ def plan(tier, seed):
         for r in range(m):
             nl = int(rng.integers(0, 3))
             cases.append(dict(lane=lane, D=int(rng.integers(2, 9)), F=int(rng.integers(1, 33)), lead=[int(rng.integers(1, 4)) for _ in range(nl)],
-                              fn=['mvdr', 'souden', 'wmwf', 'gev', 'pca', 'ban', 'lcmv-free', 'gev_eig', 'rank1_pca', 'rank1_gev', 'condition'][int(rng.integers(0, 11))], rs=[seed, 14, i]))
+                              fn=['mvdr', 'souden', 'wmwf', 'gev', 'pca', 'ban', 'lcmv-free', 'gev_eig', 'rank1_pca', 'rank1_gev', 'condition', 'wmwf_fd'][int(rng.integers(0, 12))], rs=[seed, 14, i]))
             i += 1
     return cases
 
@@ -178,6 +178,7 @@ def run_stack(case, R):
         'mvdr': (lambda px, pn, av: bf.get_mvdr_vector(av, pn), 'bins'),       # noise psd (bins, D, D), atf (..., bins, D)
         'souden': (lambda px, pn, av: bf.get_mvdr_vector_souden(px, pn, ref_channel=ref_ch), 'any'),
         'wmwf': (lambda px, pn, av: bf.get_wmwf_vector(px, pn, reference_channel=ref_ch, distortion_weight=1.5), 'any'),
+        'wmwf_fd': (lambda px, pn, av: bf.get_wmwf_vector(px, pn, reference_channel=ref_ch, distortion_weight='frequency_dependent'), 'any'),
         'gev': (lambda px, pn, av: bf.get_gev_vector(px, pn), 'any'),
         'gev_eig': (lambda px, pn, av: bf.get_gev_vector(px, pn, use_eig=True), 'any'),
         'pca': (lambda px, pn, av: bf.get_pca_vector(px, scaling='trace'), 'any'),
@@ -331,6 +332,9 @@ def run_singular(case, R):
         Pn = np.ascontiguousarray(gen.hpd(rng, D, cond=100.0, lead=(F,), real=True))        # float64 noise PSD, complex target PSD
     if not real_noise and case['rs'][-1] % 2 == 0:
         Pn = np.broadcast_to(Pn[0], Pn.shape).copy()          # stationary noise: one regular PSD for all bins
+    c64 = (not real_noise) and case['rs'][-1] % 5 == 1
+    if c64:
+        Px, Pn = Px.astype(np.complex64), Pn.astype(np.complex64)        # single-precision PSDs (zero bins must stay zero vectors here too)
     sing = rng.uniform(size=F) < 0.35
     sing[int(rng.integers(F))] = True
     sing[int(rng.integers(F))] = False
@@ -346,7 +350,7 @@ def run_singular(case, R):
         else:
             Pn2[f, 0, :] = 0; Pn2[f, :, 0] = 0
     ref = int(rng.integers(0, D))
-    info = dict(D=D, F=F, singular_bins=int(sing.sum()), real_noise_psd=real_noise)
+    info = dict(D=D, F=F, singular_bins=int(sing.sum()), real_noise_psd=real_noise, single_precision=bool(c64))
     for which, f in (('souden', lambda px, pn: bf.get_mvdr_vector_souden(px, pn, ref_channel=ref)),
                      ('wmwf', lambda px, pn: bf.get_wmwf_vector(px, pn, reference_channel=ref, distortion_weight=1.0)),
                      ('souden-auto', lambda px, pn: bf.get_mvdr_vector_souden(px, pn)),
@@ -376,12 +380,12 @@ def run_singular(case, R):
             lam = np.trace(phi, axis1=-1, axis2=-2)[..., None, None]
             refv = (phi / lam)[..., ref] if which == 'souden' else (phi / (1.0 + lam))[..., ref]
             dvv = float(np.abs(w[g0] - refv).max() / np.abs(refv).max())
-            R.check('C13.singular', dvv <= 1e-8, f'singular/regular-bins-wrong/{which}', f'{which}: regular bins next to singular ones deviate from the direct solution by {dvv:.3e}', **info)
+            R.check('C13.singular', dvv <= (1e-8 if not c64 else 1e-2), f'singular/regular-bins-wrong/{which}', f'{which}: regular bins next to singular ones deviate from the direct solution by {dvv:.3e}', **info)
         if which in ('souden', 'wmwf'):
             good = ~sing
             wr = f(Px2[good], Pn2[good])
             same = np.array_equal(w[good], wr)
-            close = np.allclose(w[good], wr, rtol=1e-12, atol=0)
+            close = np.allclose(w[good], wr, rtol=1e-12 if not c64 else 1e-4, atol=0)
             if same:
                 R.ok('C13.singular')
             elif close:
